@@ -218,12 +218,13 @@ def _tree_worker(item):
         res['outcomes'][outcome] = res['outcomes'].get(outcome, 0) + 1
         if nontrivial(lbls):
             res['counters']['nontrivial'] += 1
-        for k in features(lbls, ref):
+        fts = features(lbls, ref)
+        for k in fts:
             res['counters']['feat_' + k] = res['counters'].get('feat_' + k, 0) + 1
         if v is not None and len(res['violations']) < 40:
             res['violations'].append(v)
-        if len(res['samples']) < 2 and len(lbls) == depth and nontrivial(lbls):
-            res['samples'].append({'history': G.describe(mkhist(lbls)), 'outcome': outcome})
+        if len(res['samples']) < 2 and len(lbls) == depth and ('same_after_gap' in fts or 'order_swap' in fts or 'nometa_after_flip' in fts):
+            res['samples'].append({'history': G.describe(mkhist(lbls)), 'outcome': outcome, 'features': sorted(fts)})
         if forb or len(lbls) >= depth:
             return
         for l in alpha:
